@@ -152,8 +152,8 @@ func (g *grpcHandler) NewConn(
 	// send the error to the client later on.
 	requestCompression, responseCompression, failed := negotiateCompression(
 		g.CompressionPools,
-		request.Header.Get(grpcHeaderCompression),
 		// Several field lines mean the same as one line joined by commas.
+		strings.Join(request.Header.Values(grpcHeaderCompression), ","),
 		strings.Join(request.Header.Values(grpcHeaderAcceptCompression), ","),
 	)
 
